@@ -266,14 +266,16 @@ theorem string_out_buf (v : Buf) (s : List Nat) (hs : s.length < 2147483648) :
       = .ok ⟨some (.str []), .buf (fassign v.length s), 0⟩ := by
   have h := strCopy_counted v [] (s ++ [NUL]) s.length (by simp)
   simp only [List.append_nil, List.take_left'] at h
-  run_simp [h, narrow32_of_lt _ hs]
+  rw [← narrow32_of_lt _ hs] at h
+  run_simp [h]
 
 theorem string_out_cfi (v : Buf) (s : List Nat) (hs : s.length < 2147483648) :
     runArg Kind.stringOut.fspec (Kind.stringOut.cspec true) true (.buf v) (.arg fun _ => .str s)
       = .ok ⟨some (.str []), .buf (fassign v.length s), 0⟩ := by
   have h := strCopy_counted v [] (s ++ [NUL]) s.length (by simp)
   simp only [List.append_nil, List.take_left'] at h
-  run_simp [h, narrow32_of_lt _ hs]
+  rw [← narrow32_of_lt _ hs] at h
+  run_simp [h]
 
 /-- `std::string &` intent(inout): trimmed text in, `take L (s ++ blanks)` out -/
 theorem string_inout_buf (t : Buf) (f : List Nat → List Nat) (hs : (f (rtrim t)).length < 2147483648) :
@@ -282,7 +284,8 @@ theorem string_inout_buf (t : Buf) (f : List Nat → List Nat) (hs : (f (rtrim t
       = .ok ⟨some (.str (rtrim t)), .buf (fassign t.length (f (rtrim t))), 0⟩ := by
   have h := strCopy_counted t [] (f (rtrim t) ++ [NUL]) (f (rtrim t)).length (by simp)
   simp only [List.append_nil, List.take_left'] at h
-  run_simp [rtrim_length_le, ← rtrim_prefix, h, narrow32_of_lt _ hs]
+  rw [← narrow32_of_lt _ hs] at h
+  run_simp [rtrim_length_le, ← rtrim_prefix, h]
 
 theorem string_inout_cfi (t : Buf) (f : List Nat → List Nat) (hs : (f (rtrim t)).length < 2147483648) :
     runArg Kind.stringInout.fspec (Kind.stringInout.cspec true) true (.buf t)
@@ -290,7 +293,8 @@ theorem string_inout_cfi (t : Buf) (f : List Nat → List Nat) (hs : (f (rtrim t
       = .ok ⟨some (.str (rtrim t)), .buf (fassign t.length (f (rtrim t))), 0⟩ := by
   have h := strCopy_counted t [] (f (rtrim t) ++ [NUL]) (f (rtrim t)).length (by simp)
   simp only [List.append_nil, List.take_left'] at h
-  run_simp [rtrim_length_le, ← rtrim_prefix, h, narrow32_of_lt _ hs]
+  rw [← narrow32_of_lt _ hs] at h
+  run_simp [rtrim_length_le, ← rtrim_prefix, h]
 
 /-- `char *` intent(out) (`c_char_*_out_buf`): the library writes a C string `str` into the
     caller's own `L` bytes; afterwards the variable holds `str` blank padded.  The documented
@@ -361,9 +365,9 @@ theorem string_result_buf (v : Buf) (s : List Nat) (hs : s.length < 2147483648) 
   cases s with
   | nil => cases cfi <;> run_simp [hn, fassign]
   | cons a s =>
-    have hn := narrow32_of_lt _ hs
-    simp at h hn
-    cases cfi <;> run_simp [h, hn]
+    rw [← narrow32_of_lt _ hs] at h
+    simp only [List.cons_append] at h
+    cases cfi <;> run_simp [h]
 
 /-- `char` result: the character, then blanks (`L ≥ 1`) -/
 theorem char_scalar_result_buf (v : Buf) (c : Nat) (hL : 0 < v.length) (cfi : Bool) :
